@@ -119,6 +119,12 @@ pub fn sinks(case: &mut Case, full: bool) -> Vec<Sink> {
         Sink::new(Pre::None, Fin::Insert(OTHER, OTHER_LEN)),
         Sink::new(Pre::None, Fin::Insert(OTHER, OTHER_LEN + 1)),
     ];
+    // the `*_unchecked` flavours of downcast / downcast_ref / downcast_mut / swap on an owned handle
+    v.push(Sink::unchecked(Pre::None, Fin::Downcast));
+    v.push(Sink::unchecked(Pre::None, Fin::Ref));
+    v.push(Sink::unchecked(Pre::Mutate(case.fresh_id()), Fin::Downcast));
+    v.push(Sink::unchecked(Pre::SwapWrapper(case.fresh_id()), Fin::Push(OTHER)));
+    v.push(Sink::unchecked(Pre::SwapRaw(case.fresh_id()), Fin::Ref));
     if full {
         for fin in [Fin::Drop, Fin::Downcast, Fin::Push(OTHER), Fin::Insert(OTHER, 1)] {
             v.push(Sink::new(Pre::Mutate(case.fresh_id()), fin));
@@ -177,7 +183,7 @@ pub fn elem_ops(case: &mut Case, n: usize, full: bool) -> Vec<Op> {
         ops.push(Op::TInsert { v: 0, at, id: case.fresh_id() });
         ops.push(Op::TRemove { v: 0, at });
         ops.push(Op::TSwapRemove { v: 0, at });
-        for how in [GetHow::Get, GetHow::At, GetHow::GetMut, GetHow::AtMut, GetHow::TGet, GetHow::TAt, GetHow::TGetMut, GetHow::TAtMut] {
+        for how in [GetHow::Get, GetHow::At, GetHow::GetMut, GetHow::AtMut, GetHow::TGet, GetHow::TAt, GetHow::TGetMut, GetHow::TAtMut, GetHow::GetUnchecked, GetHow::GetUncheckedMut, GetHow::TGetUnchecked, GetHow::TGetUncheckedMut] {
             ops.push(Op::Get { v: 0, at, how });
         }
     }
@@ -506,7 +512,7 @@ pub fn gen_op(rng: &mut Rng, case: &mut Case, p: &HistParams) -> Op {
             9 if len > 0 || invalid => return Op::TRemove { v, at: if invalid { len } else { idx_in(rng) } },
             10 if len > 0 || invalid => return Op::TSwapRemove { v, at: if invalid { len } else { idx_in(rng) } },
             11 => {
-                let how = *rng.pick(&[GetHow::Get, GetHow::At, GetHow::GetMut, GetHow::AtMut, GetHow::TGet, GetHow::TAt, GetHow::TGetMut, GetHow::TAtMut]);
+                let how = *rng.pick(&[GetHow::Get, GetHow::At, GetHow::GetMut, GetHow::AtMut, GetHow::TGet, GetHow::TAt, GetHow::TGetMut, GetHow::TAtMut, GetHow::GetUnchecked, GetHow::GetUncheckedMut, GetHow::TGetUnchecked, GetHow::TGetUncheckedMut]);
                 let at = if invalid { len + rng.below(2) } else if len == 0 { continue } else { idx_in(rng) };
                 return Op::Get { v, at, how };
             }
@@ -1093,7 +1099,7 @@ pub fn cap_ops(case: &mut Case, n: usize, _full: bool) -> Vec<Vec<Op>> {
 pub fn handle_ops(case: &mut Case, n: usize, full: bool) -> Vec<Vec<Op>> {
     let mut ops = Vec::new();
     for at in indices(n, 1) {
-        for how in [GetHow::Get, GetHow::At, GetHow::GetMut, GetHow::AtMut, GetHow::TGet, GetHow::TAt, GetHow::TGetMut, GetHow::TAtMut] {
+        for how in [GetHow::Get, GetHow::At, GetHow::GetMut, GetHow::AtMut, GetHow::TGet, GetHow::TAt, GetHow::TGetMut, GetHow::TAtMut, GetHow::GetUnchecked, GetHow::GetUncheckedMut, GetHow::TGetUnchecked, GetHow::TGetUncheckedMut] {
             ops.push(Op::Get { v: 0, at, how });
         }
         for via in ALL_VIEWS {
